@@ -16,6 +16,8 @@ func runStream(name string, args []string) {
 		streamEst(o)
 	case "ghost":
 		streamGhost(o)
+	case "ht":
+		streamHt(o)
 	default:
 		fmt.Fprintf(os.Stderr, "unknown stream %q\n", name)
 		os.Exit(2)
